@@ -3027,15 +3027,17 @@ static int32_t parseGeneralNames(psPool_t *pool, const unsigned char **buf,
                 psTraceCrypto("ASN parse error SAN otherName oid\n");
                 return -1;
             }
-            activeName->oid = psMalloc(pool, activeName->oidLen);
-            if (activeName->oid == NULL && activeName->oidLen > 0)
-            {
-                psError("Memory allocation error: activeName->oid\n");
-                return PS_MEM_FAIL;
-            }
-            /* Note activeName->oidLen could be zero here */
+            /* Note activeName->oidLen could be zero here: nothing is
+               allocated then (the free code only releases oid when
+               oidLen > 0, so a zero-size block would never be freed). */
             if (activeName->oidLen > 0)
             {
+                activeName->oid = psMalloc(pool, activeName->oidLen);
+                if (activeName->oid == NULL)
+                {
+                    psError("Memory allocation error: activeName->oid\n");
+                    return PS_MEM_FAIL;
+                }
                 Memcpy(activeName->oid, p, activeName->oidLen);
             }
             p += activeName->oidLen;
